@@ -7,7 +7,7 @@ incl. configurations that MUST fail), GenPublish (scenario generator), PublishTr
 specification over the common step-line format of harness/world).
 
 MC -> Gen (TLC, BFS families + seeded -simulate) -> replay through harness/drivers/router
-(TestRouterReplay; plus TestRouterWalk and seeded floodsub/randomsub walks) -> PublishTrace judges
+(TestRouterReplay; batch publishing through harness/drivers/c06; plus TestRouterWalk and seeded floodsub/randomsub walks) -> PublishTrace judges
 every step in which the real node accepted a message -> vlib.finish."""
 import concurrent.futures as cf
 import json, os, random, re, threading, time
@@ -23,8 +23,10 @@ BASE = {
     "PeerSeq": "<- Seq3", "ProtoOf": "<- ProtoMixed", "Router": '= "gossipsub"', "D": "= 2", "Dlo": "= 1",
     "FanoutTTL": "= 2", "IDWTTL": "= 2", "Thr": "<- MCThr", "ScoreVals": "<- MCScores3", "FloodPublish": "= FALSE",
     "RsSize": "= 10", "MaxMsgs": "= 1", "MaxHist": "= 1", "MaxDirect": "= 1", "MaxUnwanted": "= 1",
-    "ExcludeSource": "= TRUE", "EarlyReturn": "= TRUE", "FanoutUnfiltered": "= TRUE",
-    "Tolerated": '= {"to-fanout-member-that-left-topic", "mesh-missed-no-topic-entry"}',
+    # the model follows the REPAIRED code (/repo 5ab6a16 = D21, 74d77d0 = D22): no early return when topics[t] is absent,
+    # fanout members re-checked against topics[t], nothing tolerated; the as-found variants are MUST-FAIL configurations
+    # ... and publishMessageBatch must skip local-only messages like publishMessage does (BatchLocalSkipped; as found it does not)
+    "ExcludeSource": "= TRUE", "EarlyReturn": "= FALSE", "FanoutUnfiltered": "= FALSE", "BatchLocalSkipped": "= TRUE", "Tolerated": "= {}",
 }
 GEN = {"Prep": "= TRUE", "PrepTp": "<- PrepTpAll", "PrepJoined": "<- BoolBoth", "PrepMesh": "= TRUE",
        "Alphabet": "<- AlphaAll", "MaxOther": "= 0", "MaxDyn": "= 1", "Tolerated": "= {}", "MaxHist": "= 100"}
@@ -66,9 +68,11 @@ def model_checking(ctx):
         # MUST fail: the `pid == from` test dropped
         ("bug-source", "SpecAll", {"ScoreVals": "<- MCScores2", "ExcludeSource": "= FALSE"}, False, "P_C06_Never", 2),
         ("bug-source-floodsub", "SpecAll", dict(FLOODSUB, ExcludeSource="= FALSE"), False, "P_C06_Never", 1),
-        # MUST fail: the strict property on the code as found (the two listed findings, one at a time)
-        ("strict-never", "SpecAll", {"ScoreVals": "<- MCScores2", "Tolerated": '= {"mesh-missed-no-topic-entry"}'}, False, "P_C06_Never", 2),
-        ("strict-mesh", "SpecAll", {"ScoreVals": "<- MCScores2", "Tolerated": '= {"to-fanout-member-that-left-topic"}'}, False, "P_C06_Mesh", 2),
+        # MUST fail: the code as found before the two repairs, one at a time (D22: stale fanout member served; D21: early return)
+        ("asfound-fanout-unfiltered", "SpecAll", {"ScoreVals": "<- MCScores2", "FanoutUnfiltered": "= TRUE"}, False, "P_C06_Never", 2),
+        ("asfound-early-return", "SpecAll", {"ScoreVals": "<- MCScores2", "EarlyReturn": "= TRUE"}, False, "P_C06_Mesh", 2),
+        # MUST fail: publishMessageBatch handing local-only messages of a batch to the router (code as found)
+        ("asfound-batch-local", "SpecAll", {"ScoreVals": "<- MCScores2", "BatchLocalSkipped": "= FALSE"}, False, "P_C06_Never", 2),
     ]
     if T:
         jobs.insert(1, ("all-gs-4peers", "SpecAll", {"PeerSeq": "<- Seq4", "ScoreVals": "<- MCScores2"}, False, "ok", 8))
@@ -113,6 +117,8 @@ def gen_families(ctx):
                                              ScoreVals="<- MCScoresLow", MaxOther="= 2", MaxDyn="= 3"), "bfs", q(100, 1500)),
         # the same prepared states on a flood-publishing node (forwarded messages must still follow the mesh rule)
         ("oneshot4-flood", "gossipsub", True, dict(g4, Alphabet="<- AlphaMsg", FloodPublish="= TRUE"), "bfs", q(120, 1500)),
+        # batch publishing: every prepared state + one batch of three messages, each local-only or not (replayed by drivers/c06)
+        ("batch4", "gossipsub", False, dict(g4, Alphabet="<- AlphaBatch", MaxMsgs="= 3", MaxDyn="= 3"), "bfs", q(150, 1500)),
         # 3 peers: every prepared state + any one stimulus + one message
         ("prestep3", "gossipsub", False, dict({"MaxMsgs": "= 1", "MaxOther": "= 1", "MaxDyn": "= 2", "Alphabet": "<- AlphaAll"},
                                               **({} if T else {"PrepTp": "<- PrepTpBig"})), "bfs", q(400, 3000)),
@@ -125,7 +131,7 @@ def gen_families(ctx):
         ("randomsub9", "randomsub", False, dict(RANDOMSUB, Alphabet="<- AlphaPlain", PrepTp="<- PrepTpPrefix", PrepMesh="= FALSE",
                                                 PrepJoined="<- OnlyTrue", MaxOther=q("= 0", "= 1"), MaxMsgs="= 1", MaxDyn=q("= 1", "= 2")), "bfs", q(100, 1200)),
         # long seeded random histories from the empty state
-        ("sim4", "gossipsub", False, dict(g4, Prep="= FALSE", MaxOther="= 100", MaxMsgs="= 5", MaxDyn="= 16", MaxDirect="= 1",
+        ("sim4", "gossipsub", False, dict(g4, Prep="= FALSE", Alphabet="<- AlphaSim", MaxOther="= 100", MaxMsgs="= 5", MaxDyn="= 16", MaxDirect="= 1",
                                           MaxUnwanted="= 2"), "sim", q(150, 2000)),
         ("sim4-flood", "gossipsub", True, dict(g4, Prep="= FALSE", MaxOther="= 100", MaxMsgs="= 5", MaxDyn="= 14",
                                                FloodPublish="= TRUE"), "sim", q(50, 600)),
@@ -208,8 +214,10 @@ def to_scenario(acts, router, flood):
     created = {OUTSIDER} if need_px else set()
     fwd = {a["v"]: a for a in acts if a["a"] == "msg"}
     made = set()
+    prev_batch = False
     for a in acts:
         k, p = a["a"], a["p"]
+        in_batch, prev_batch = prev_batch, (k == "publish" and a["q"] == "batch")   # in_batch: the previous action was a batch member
         if k == "peer":
             idx = int(p[1:]) if p[1:].isdigit() else 1
             out.append({"a": "peer", "p": p, "proto": a["q"], "dir": "in" if idx % 2 else "out", "subs": [TOPIC] if a["b"] else []})
@@ -242,6 +250,15 @@ def to_scenario(acts, router, flood):
             out.append({"a": "subscribe", "t": TOPIC})
         elif k == "hb":
             out.append({"a": "hb"})
+        elif k == "publish" and a["q"] == "batch":
+            # consecutive batch publications of the history are ONE Topic.AddToBatch... + PublishBatch call
+            e = {"m": "m%d" % a["v"]}
+            if a["b"]:
+                e["localOnly"] = True
+            if in_batch and out and out[-1]["a"] == "batch":
+                out[-1]["msgs"].append(e)
+            else:
+                out.append({"a": "batch", "t": TOPIC, "msgs": [e]})
         elif k == "publish":
             x = {"a": "publish", "t": TOPIC, "m": "m%d" % a["v"]}
             if a["b"]:
@@ -314,6 +331,8 @@ def plain_walk(rng, router, steps):
 
 # ----------------------------------------------------------------------------- replay and trace validation
 
+DRV_ROUTER = ("./drivers/router/", "^TestRouterReplay$")
+DRV_C06 = ("./drivers/c06/", "^TestC06Replay$")
 _go_gate, _go_last = threading.Lock(), [0.0]
 
 
@@ -344,13 +363,15 @@ def replay(ctx, name, scenarios):
     """Replay scenario files through TestRouterReplay in a few parallel processes. Returns the traces (list of line lists)."""
     nproc = 1 if len(scenarios) < 300 else (4 if ctx.thorough else 3)
     parts = [scenarios[i::nproc] for i in range(nproc)]
+    # batch publishing is not in the common alphabet: such scenarios go through the C06 driver (same interpreter)
+    drv = DRV_C06 if any(a["a"] == "batch" for s in scenarios for a in s["acts"]) else DRV_ROUTER
 
     def one(k):
         inp = os.path.join(ctx.work, "scn-%s-%d.ndjson" % (name, k))
         outp = os.path.join(ctx.work, "trace-%s-%d.ndjson" % (name, k))
         mark = os.path.join(ctx.work, "marker-%s-%d" % (name, k))
         vlib.write_ndjson(inp, parts[k])
-        r = run_go(ctx, "./drivers/router/", "^TestRouterReplay$", env={"VERIF_IN": inp, "VERIF_OUT": outp, "VERIF_MARKER": mark},
+        r = run_go(ctx, drv[0], drv[1], env={"VERIF_IN": inp, "VERIF_OUT": outp, "VERIF_MARKER": mark},
                         timeout=1500, name="replay-%s-%d" % (name, k))
         return k, inp, outp, mark, r
 
@@ -358,7 +379,7 @@ def replay(ctx, name, scenarios):
     with cf.ThreadPoolExecutor(max_workers=nproc) as ex:
         for k, inp, outp, mark, r in ex.map(one, range(nproc)):
             if r["rc"] != 0:
-                crash_or_inconclusive(ctx, "replay %s/%d" % (name, k), r, inp, mark)
+                crash_or_inconclusive(ctx, "replay %s/%d" % (name, k), r, inp, mark, drv)
             if not os.path.exists(outp) or os.path.getsize(outp) == 0:
                 raise vlib.Inconclusive("driver produced no trace for %s (rc=%s, see %s)" % (name, r["rc"], r["log"]))
             s = split_by_scn(vlib.read_ndjson(outp))
@@ -371,7 +392,7 @@ def replay(ctx, name, scenarios):
     return traces
 
 
-def crash_or_inconclusive(ctx, what, r, inp, mark):
+def crash_or_inconclusive(ctx, what, r, inp, mark, drv=None):
     """A dead driver is a violation only if the single scenario reproduces a panic inside the library."""
     idx = None
     try:
@@ -380,7 +401,8 @@ def crash_or_inconclusive(ctx, what, r, inp, mark):
         pass
     if idx is not None and "panic:" in r["out"]:
         outp = os.path.join(ctx.work, "crash-%d.ndjson" % idx)
-        r2 = run_go(ctx, "./drivers/router/", "^TestRouterReplay$",
+        drv = drv or DRV_ROUTER
+        r2 = run_go(ctx, drv[0], drv[1],
                          env={"VERIF_IN": inp, "VERIF_OUT": outp, "VERIF_ONLY": idx}, timeout=300, name="crash-%d" % idx)
         lib = re.search(r"go-libp2p-pubsub(@[^/]*)?/|%s/" % re.escape(os.path.realpath(vlib.REPO)), r2["out"])
         if r2["rc"] != 0 and "panic:" in r2["out"] and lib:
@@ -460,7 +482,7 @@ REQUIRED = [  # DESIGN C06 obligations, each on at least one validated step of t
     "fwd-src-ne-author", "author-is-mesh-peer", "source-is-mesh-peer", "floodsub-peer-at-threshold", "floodsub-peer-below-threshold",
     "direct-not-in-mesh", "mesh-peer-idontwant", "floodsub-or-direct-peer-idontwant", "fanout-select-needs-peer-at-threshold", "non-mesh-gossipsub-peer-skipped", "fanout-select", "fanout-select-more-than-D",
     "fanout-reuse", "fanout-reuse-with-alternatives", "fanout-reuse-after-member-removed", "fanout-member-removed", "fanout-expiry",
-    "fanout-kept-past-first-ttl", "fanout-member-at-threshold", "fanout-select-skips-direct", "flood-publish", "flood-publish-below-threshold", "flood-publish-direct-below-threshold", "direct-below-threshold", "forward-under-flood-publish", "local-only-with-topic-peers",
+    "fanout-kept-past-first-ttl", "fanout-member-at-threshold", "fanout-select-skips-direct", "flood-publish", "flood-publish-below-threshold", "flood-publish-direct-below-threshold", "direct-below-threshold", "forward-under-flood-publish", "local-only-with-topic-peers", "batch-publish", "batch-local-only-with-topic-peers",
     "randomsub-above-D", "randomsub-below-D", "floodsub-router", "connected-peer-not-in-topic"]
 
 
